@@ -73,6 +73,16 @@ PREFER["11"] = ("Ten earlier changes per property are listed above. This time pr
                 "dict; (gg) a data-dependent branch keyed on np.isclose / np.allclose / matrix_rank / a sort that flips for inputs with a large dynamic "
                 "range, with ties, or with a tiny but genuine component. The result must stay silently wrong (no exception, plausible values), must need "
                 "something specific to show (say what in meta.json) and must not reuse a mechanism from the list above.")
+PREFER["12"] = ("Eleven earlier changes per property are listed above. This time prefer one of the following kinds of change, in a function and branch no "
+                "earlier change touched: (hh) TWO cooperating edits in different functions (or different branches of one function) that each keep that "
+                "function's own behaviour plausible and its tests passing, but whose combination breaks the statement (a convention changed at the "
+                "producer and only partly at the consumer; a helper that now returns a view / another dtype / another orientation which one of its "
+                "callers mishandles); (ii) a value that is wrong only for a NON-generic but perfectly valid instance whose exact answer is known from "
+                "theory (a game, ensemble, channel or state family from the literature that the tests do not use), while random instances stay right; "
+                "(jj) an argument-dependent choice between two algorithms (size threshold, sparsity, dtype, symmetry test) where the rarely taken "
+                "algorithm is subtly wrong; (kk) accumulated floating-point or integer error that only matters for the larger admissible sizes. The "
+                "result must stay silently wrong (no exception, plausible values), must need something specific to show (say what in meta.json) and "
+                "must not reuse a mechanism from the list above.")
 TEMPLATE = open(os.path.join(os.path.dirname(os.path.abspath(__file__)), "seedprompt.template.txt")).read()
 os.makedirs(f"/tmp/seeded{ROUND}", exist_ok=True)
 for line in open("/verif/properties.jsonl"):
